@@ -86,6 +86,11 @@ CHECKS = {
    text="Draw histories (depth 4, thorough 5; states merged on GetContents + private logical buffer + model) in UTF-8, ISO8859-1 and US-ASCII over a wide-rune/style/fallback alphabet and a SetSize/cursor/lock alphabet: after every Show/Sync the reported physical cells must equal the shadow model (Runes, resolved Style, Bytes under the fallback chain), GetCursor must reflect ShowCursor, SetSize must preserve the overlap and yield exactly one EventResize with the new size. Injection: every printable BMP character (thorough: to U+2FFFF) of all 24 stateless charsets through InjectKeyBytes alone, all 2- and 3-character texts over representatives of every encoded length (multi-byte last), and all sequences up to length 3 of InjectKey/InjectMouse/InjectKeyBytes, compared with PollEvent's output order.",
    note="Cells covered by a wide rune, locked cells and trailing padding of Bytes are not compared; the cursor reset by SetSize is followed, not judged.",
    design="2/C18"),
+ "C06": dict(level="model_checking",
+   technique="stateless DFS over thread schedules of the real inputLoop/mainLoop/shutdown code under a controlled scheduler (AST-instrumented build), deviation-bounded, with state-key pruning; deadlock = violation",
+   text="tscreen.go/screen.go are rewritten at build time (sync, time, go statements, channel operations, select) so that every synchronisation operation of the real code is a scheduling point owned by the explorer; tty reads, timers and the clock are virtual. About 230 members of the shutdown family (Fini or Suspend x event-queue level 0..10 x chunks offered 0..13 x consumer polling or stopped, plus pending resize, tty read error at the 1st-3rd read, concurrent poster, concurrent drawer, Suspend/Resume cycles) are each explored exhaustively up to 2 deviations (thorough 3) from the canonical schedule - a deviation is a preemption, an early timer firing or a non-first ready select arm; which blocked thread resumes is explored without bound. A deterministic prologue fills the real-capacity queues, branching starts when the shutdown caller is spawned. Every execution must end with the shutdown caller finished, PollEvent not parking after Fini, ChannelEvents closed, both library goroutines gone, later calls not panicking, and input/resize working after Resume.",
+   note="Scheduling points are synchronisation operations (sequential consistency between them); pruning merges states with equal thread-local histories, queue contents, protected screen state and tty state (argument in rt/sched/sched.go); bounded deviations; evidence reports whether each member completed its bound.",
+   design="2/C06"),
  # --- new checks above this line ---
 }
 
